@@ -30,6 +30,8 @@ def curated(rng):
                                   ("P1", alt(seq(lit("("), cap("K", "union", {"op": "union", "u": "U0"}), lit(")")), cap("V", "string", ref("Ident"))), [F("K", "union", "U0"), F("V", "string")]),
                                   ("P2", seq(lit("b"), cap("W", "strings", ref("Int"))), [F("W", "strings")])], unions={"U0": ["P1", "P2"]}))
     gs.append(P.mk_grammar("e5", [("P0", grp("plus", seq(grp("opt", grp("opt", lit("a"))), grp("nonempty", grp("star", cap("A", "strings", ref("Ident")))), lit("!"))), [F("A", "strings")])]))
+    # captures applied directly to [ ] / { } groups inside modified or negated parentheses; negation of repeated terms
+    gs.append(P.mk_grammar("e6", [("P0", seq(grp("plus", cap("A", "strings", grp("opt", alt(lit("-"), lit("+"))))), lit("!"), grp("nonempty", cap("B", "strings", grp("star", lit("x")))), neg(grp("star", lit(";"))), neg(grp("opt", grp("once", alt(lit("a"), lit("b")))))), [F("A", "strings"), F("B", "strings")])]))
     return gs
 
 
